@@ -85,6 +85,14 @@ fn drive_tpl(vectors: Option<&str>, corpus: &str, rng: &mut Rng, thorough: bool,
       }
     }
   }
+  // a captured run of siblings that ENDS in an unnamed token (a trailing comma): the slot stands for the whole run
+  for (k, (src, pattern, template)) in [("foo(a, b,)\n", "foo($$$ARGS)", "foo($$$ARGS)"), ("const xs = [1, 2, 3,];\n", "[$$$I]", "f([$$$I])"),
+                                        ("  bar(\n    x,\n    y,\n  );\n", "bar($$$A)", "baz($$$A)"), ("foo(a,)\n", "foo($$$ARGS)", "g($$$ARGS, $$$ARGS)")].iter().enumerate() {
+    if let Some(r) = tpl_record(&format!("c07trail{k}"), SupportLang::JavaScript, src, pattern, template, None) {
+      w.put(&r);
+      nv += 1;
+    }
+  }
   // long lines: the site sits around and beyond the look-behind limit of the indentation arithmetic, behind a run of
   // spaces; rewriting g(..) to itself
   for lead in [0usize, 4] {
